@@ -520,3 +520,42 @@ func TestVerifC08Config(t *testing.T) {
 			"only notations produced by the harness grammar are judged; IPv4-mapped prefixes shorter than /96 are skipped"}},
 		genC08, runC08)
 }
+
+// Native fuzz target (thorough tier): ParseCIDR on arbitrary strings. Oracle: never panics; an accepted
+// string yields a non-empty, single-family set of prefixes; and whenever the harness's own parser
+// recognises the notation, exactly the addresses it denotes.
+func FuzzVerifC08ParseCIDR(f *testing.F) {
+	for _, s := range []string{"10.0.0.0/24", "10.0.0.5/24", "10.0.0.1-10.0.0.9", "10.0.0.250 - 10.0.1.5", "::ffff:10.0.0.0/120", "::ffff:10.0.0.1-10.0.0.9",
+		"fc00::/64", "fc00::1-fc00::ffff", "fc00::ffff:ffff:ffff:fffe-fc00:0:0:1::1", "10.0.0.1-fc00::1", "10.0.0.9-10.0.0.1", "0.0.0.0/0", "::/0", "10.0.0.0/32", "fc00::/128", "", "-", "1.2.3.4"} {
+		f.Add(s)
+	}
+	f.Fuzz(func(t *testing.T, s string) {
+		nets, err := ParseCIDR(s)
+		if err != nil {
+			return
+		}
+		if len(nets) == 0 {
+			t.Fatalf("ParseCIDR(%q) accepted the string but produced no prefix", s)
+		}
+		var have []vw.Interval
+		v4 := 0
+		for _, n := range nets {
+			iv, ok := ipnetInterval(n)
+			if !ok {
+				t.Fatalf("ParseCIDR(%q) produced an unusable prefix %v", s, n)
+			}
+			if iv.V4() {
+				v4++
+			}
+			have = append(have, iv)
+		}
+		if v4 != 0 && v4 != len(nets) {
+			t.Fatalf("ParseCIDR(%q) mixes families: %v", s, nets)
+		}
+		if iv, kind, _ := vw.ParseAddrSpec(s); kind == vw.AddrCIDR || kind == vw.AddrRange {
+			if !vw.SameUnion([]vw.Interval{iv}, have) {
+				t.Fatalf("ParseCIDR(%q) = %v = %v, the notation denotes %v", s, nets, vw.Normalize(have), iv)
+			}
+		}
+	})
+}
